@@ -278,7 +278,7 @@ class RunoutMonitor(Monitor):
 
 
 def make_monitors():
-    return [RunoutMonitor()]
+    return [driver.Observer(0.1), RunoutMonitor()]
 
 
 def gen_kwargs(rng):
